@@ -295,14 +295,19 @@ func runProperty(prop *Property, repo, tier string, seed int, rebase, verbose bo
 		if fr.Unsupported != "" || fr.ex == nil {
 			continue
 		}
+		fr.CoverOK = true
 		for _, c := range fr.ex.covers {
 			cwg.Add(1)
 			go func(fr *FuncResult, c *Obligation) {
 				defer cwg.Done()
-				r := solve(c.vc.query(c.Mark, nil, c.Goal, false), outDir, c.Name, 3, "z3,cvc5")
+				r := solveCover(c, outDir)
 				cmu.Lock()
-				fr.CoverRes = r.Status
-				fr.CoverOK = r.Status != "unsat"
+				if r.Status == "unsat" {
+					fr.CoverRes = "UNREACHABLE " + c.Name
+					fr.CoverOK = false
+				} else if fr.CoverRes == "" {
+					fr.CoverRes = r.Status
+				}
 				cmu.Unlock()
 			}(fr, c)
 		}
@@ -310,7 +315,7 @@ func runProperty(prop *Property, repo, tier string, seed int, rebase, verbose bo
 	cwg.Wait()
 	for _, fr := range rep.Funcs {
 		if fr.Unsupported == "" && fr.ex != nil && len(fr.ex.covers) > 0 && !fr.CoverOK {
-			rep.failClosed("vacuous", "preconditions of "+fr.Fn+" are contradictory or no return is reachable")
+			rep.failClosed("vacuous", "preconditions of "+fr.Fn+" are contradictory or a success return is unreachable: "+fr.CoverRes)
 		}
 	}
 	rep.classify(all, rebase, verbose)
